@@ -46,6 +46,7 @@ FrameMatches(f, o) ==
   /\ Chk("frame.sup", f.sup = o.sup) /\ Chk("frame.supby", f.supby = o.supby) /\ Chk("frame.ts", f.ts = o.ts)
   /\ Chk("frame.emb", (IF f.st = "active" THEN f.emb ELSE 0) = o.emb)   \* only active frames stay in the vector index (C14)
   /\ Chk("frame.ci", f.ci = o.ci) /\ Chk("frame.cc", f.cc = o.cc)
+  /\ Chk("frame.meta", \A fld \in MetaFields : f.meta[fld] # 0 => (Has(o, "meta") /\ f.meta[fld] = o.meta[fld]))   \* C08: inherited fields
   /\ Chk("frame.blob", f.role = "doc" /\ f.cc <= 0 /\ o.len > 0 => o.blob_same)     \* blob reader streams the same bytes (C07)
 
 ObservedFile(o) ==
@@ -111,6 +112,7 @@ TClose == /\ IsEvent("close")
 TAbandon == IsEvent("abandon") /\ Abandon /\ Observed(Ev.obs)
 
 Emb(a) == IF Has(a, "emb") THEN a.emb ELSE 0
+MetaOf(a) == [fld \in MetaFields |-> IF Has(a, "meta") /\ Has(a.meta, fld) THEN a.meta[fld] ELSE 0]
 CEmbs(a) == IF Has(a, "chunk_embs") THEN a.chunk_embs ELSE <<>>
 Role(a) == IF Has(a, "role") THEN a.role ELSE "doc"
 SLen(a) == IF Has(a, "cls") /\ a.cls = "bin" THEN (IF a.size < 4 THEN 4 ELSE a.size)
@@ -119,8 +121,8 @@ SLen(a) == IF Has(a, "cls") /\ a.cls = "bin" THEN (IF a.size < 4 THEN 4 ELSE a.s
 TPut == /\ IsEvent("put")
         /\ LET a == Ev.args  n == Ev.x.nchunks  nl == NewLens IN
            IF ResOk
-             THEN /\ Put(a.uri, Role(a), a.ts, a.pay * 1000, Emb(a), n, CEmbs(a), SLen(a),
-                         First(nl, 1 + n), NthOrZero(nl, 2 + n), PayEnd(Ev.obs))
+             THEN /\ PutM(a.uri, Role(a), a.ts, a.pay * 1000, Emb(a), n, CEmbs(a), SLen(a),
+                          First(nl, 1 + n), NthOrZero(nl, 2 + n), PayEnd(Ev.obs), MetaOf(a))
                   /\ last'.res = "ok" /\ Chk("put.seq", Ev.res.val = last'.val)
                   /\ Chk("put.nfid", Ev.nfid_before = Len(frames) + pins)   \* C06: next_frame_id() before the put
                   /\ (SLen(a) > 0 /\ cpe + PendingStored(pend) + SLen(a) > Capacity
@@ -134,8 +136,8 @@ TUpdate == /\ IsEvent("update")
            /\ LET a == Ev.args  hp == Has(a, "pay")
                   n == IF Has(Ev.x, "nchunks") THEN Ev.x.nchunks ELSE 0  nl == NewLens IN
               IF ResOk
-                THEN /\ Update(a.frame, hp, IF hp THEN a.pay * 1000 ELSE 0, Emb(a), n, SLen(a),
-                               First(nl, 1 + n), NthOrZero(nl, 2 + n), PayEnd(Ev.obs))
+                THEN /\ UpdateM(a.frame, hp, IF hp THEN a.pay * 1000 ELSE 0, Emb(a), n, SLen(a),
+                                First(nl, 1 + n), NthOrZero(nl, 2 + n), PayEnd(Ev.obs), MetaOf(a))
                      /\ last'.res = "ok" /\ Chk("put.seq", Ev.res.val = last'.val)
                      /\ (~hp /\ frames[a.frame + 1].cc > 0 /\ frames[a.frame + 1].role = "doc"
                            => PrintT(<<"DEVIATION", l, "D08_update_chunked_empty">>))
